@@ -186,19 +186,28 @@ def run(ctx):
         okapp = q.refers_to_decl(app[0].args[0], bufd) and lf.t == {'MLEN': 1} and lf.c == enumv.get('_chksum_sz')
     ctx.check(okapp, 'R15.3', R + 'read#append.count', f.loc, 'exactly BodyLength + %s bytes of the frame buffer are appended to the preamble' % enumv.get('_chksum_sz'))
 
-    # ---------------- R15.4 digits
+    # ---------------- R15.4 digits, and few enough of them
     src = fa.args[0].strip(casts=True)
     digit_ok = False
+    span_locals = {}        # local n = strspn(val, digits)
+    for n in f.all_nodes():
+        if n.k == 'DeclStmt':
+            for dd, init in n.r.get('decls', []):
+                if init >= 0:
+                    for x in f.node(init).walk():
+                        if x.is_call and x.callee_qp == 'strspn' and q.same_expr(x.args[0], src) and x.args[1].strip(casts=True).k == 'StringLiteral' and \
+                                set(x.args[1].strip(casts=True).r.get('s', '')) == set('0123456789'):
+                            span_locals[dd] = x
+    def is_span(x):
+        s_ = x.strip(casts=True)
+        if s_.is_call and s_.callee_qp == 'strspn' and q.same_expr(s_.args[0], src) and s_.args[1].strip(casts=True).k == 'StringLiteral' and \
+                set(s_.args[1].strip(casts=True).r.get('s', '')) == set('0123456789'):
+            return True
+        return s_.k == 'DeclRefExpr' and s_.declid in span_locals
     for a, pol in q.controlling_atoms(f, fa):
         for x in a.walk():
-            if x.is_call and x.callee_qp in ('strspn',) and q.same_expr(x.args[0], src):
-                lit = x.args[1].strip(casts=True)
-                if lit.k == 'StringLiteral' and set(lit.r.get('s', '')) == set('0123456789'):
-                    par = x.parent
-                    while par is not None and par.k in ('ImplicitCastExpr', 'ParenExpr'):
-                        par = par.parent
-                    if par is not None and par.k == 'ArraySubscriptExpr' and q.same_expr(par.children[0], src) and pol is False:
-                        digit_ok = True
+            if x.k == 'ArraySubscriptExpr' and q.same_expr(x.children[0], src) and is_span(x.children[1]) and pol is False and a.strip(casts=True) == x:
+                digit_ok = True        # !val[strspn(val, digits)]  : the first non-digit is the terminator
             if x.is_call and x.callee is not None and x.callee.get('n') == 'find_first_not_of':
                 lit = x.args[0].strip(casts=True)
                 if lit.k == 'StringLiteral' and set(lit.r.get('s', '')) == set('0123456789'):
@@ -206,6 +215,22 @@ def run(ctx):
     ctx.check(digit_ok, 'R15.4', R + 'read#bodylength.digits', fa.loc, 'the BodyLength text is proven to consist of digits only before it is converted',
               'BodyLength is converted with fast_atoi without checking all of its characters (the first value byte arrives inside the unchecked '
               'fixed-size preamble): "9=A2" is taken as 172')
+    # the conversion wraps modulo 2^bits: the number of digits must be bounded so that the value fits
+    rt = f.tu.types[fa.callee['ret']]
+    bits = rt.get('bits', 32)
+    maxdig = len(str((1 << bits) - 1)) - 1
+    hi = q.INF
+    if fa.callee_qp in ('strtoul', 'strtoull', 'std::stoul'):
+        hi = 0
+    for a, pol in q.controlling_atoms(f, fa):
+        for x in a.walk():
+            if (x.k == 'DeclRefExpr' and x.declid in span_locals) or (x.is_call and x.callee_qp in ('strlen', 'strspn') and q.same_expr(x.args[0], src)):
+                lo_, hi_ = q.interval_from_guards(f, fa, x, match=(lambda y, _x=x: q.same_expr(y, _x)))
+                hi = min(hi, hi_)
+    ctx.check(hi <= maxdig, 'R15.4', R + 'read#bodylength.no-wrap', fa.loc,
+              'the BodyLength text has at most %s digits when it is converted to a %d-bit value (no wrap-around)' % (hi, bits),
+              'BodyLength text of any length is converted with %s, which wraps modulo 2^%d: `9=4294967301` is taken as 5, passes the length check and a frame with a '
+              'false BodyLength is handed on' % (fa.callee_q, bits))
 
     # ---------------- R15.5 reader loop
     ex = prog.fn1(R + 'execute')
